@@ -4,6 +4,7 @@ import collections
 import functools
 import itertools
 import math
+import numbers
 import operator
 import os
 import pathlib
@@ -734,6 +735,9 @@ def get_rng(seed=None):
         # use the given random number generator
         return seed
     else:
+        if isinstance(seed, numbers.Integral):
+            # e.g. numpy integers are not accepted by ``random.Random``
+            seed = int(seed)
         # use a new random number generator with the given seed
         return random.Random(seed)
 
@@ -1036,6 +1040,10 @@ def randreg_equation(
     size_dict : dict[str, int]
     """
     import networkx as nx
+
+    if isinstance(seed, numbers.Integral):
+        # e.g. networkx does not take numpy integers
+        seed = int(seed)
 
     G = nx.random_regular_graph(reg, n, seed=seed)
     return networkx_graph_to_equation(G, d_min=d_min, d_max=d_max, seed=seed)
